@@ -80,7 +80,10 @@ def increment_tolerance(series, integrand, dt, eps, k=32.0):
     ymax = max_abs(integrand)
     # left/right rectangle sums are bounded by dt*sum|y| as well; use the larger of the two scales
     rsum = abs(float(dt)) * float(np.max(np.abs(np.cumsum(f64(integrand))))) if len(integrand) else 0.0
-    return k * eps * (max(smax, rsum) + abs(float(dt)) * ymax)
+    # gradual underflow: a value held in the record's own floating dtype is a multiple of that dtype's smallest subnormal
+    # (1.4e-45 for float32), which is an absolute, not a relative, granularity
+    tiny = float(np.finfo(np.float32).smallest_subnormal) if eps > 1e-10 else float(np.finfo(np.float64).smallest_subnormal)
+    return k * eps * (max(smax, rsum) + abs(float(dt)) * ymax) + 4.0 * tiny
 
 
 def closed_form_linear(a0, s, dt, n):
